@@ -46,14 +46,23 @@ def feature(text):
     return "url" if urls else "text"
 
 
-def rand_text(r):
+LATEXISH = ["\\[a_b\\]", "\\(x\\)", "\\[\\]", "\\[ x \\] y", "\\begin{x} a \\end{x}", "\\textbf{a}", "\\emph{b} c", "\\{a\\}", "\\%", "\\&", "\\_", "\\#", "{\\'e}", "\\'e",
+            "\\href{a}{b}", "\\cite{k}", "\\\\", "a\\\\b", "\\ ", "\\,", "\\]", "\\[", "\\) \\(", "%comment", "a~b", "\\textbackslash", "\\textbackslash{}", "{}", "{a}", "}{"]
+
+
+def rand_text(r, latexish=False):
     if r.random() < 0.08:
         # a value that is nothing but one URL, with characters the encoder rewrites
         return r.choice(["http://", "https://", "www."]) + _urlchars(r) + r.choice([".org/a_b", ".com/x#y_z", ".io", ".org/a%20b", ".edu/~user", ".com/q?a=1&b=2"])
     parts = []
     for _ in range(r.randint(1, 4)):
         k = r.random()
-        if k < .7:
+        if k < .06 and latexish:
+            # (round-trip cases only: fed to the DECODER directly such a text is LaTeX, and a conversion failure is allowed)
+            # text that already LOOKS like LaTeX (seed C18-m: `\\[...\\]` kept verbatim as math by the encoder, decoded with
+            # line breaks around it): to the encoder it is plain text over the stated alphabet, character by character
+            parts.append(r.choice(LATEXISH))
+        elif k < .7:
             parts.append("".join(r.choice(ALPHABET) for _ in range(r.randint(1, 10))))
         elif k < .85:
             parts.append("$" + "".join(r.choice(MATHCH) for _ in range(r.randint(1, 6))).strip() + ("x$" if r.random() < .85 else "\\\\$"))
@@ -103,7 +112,7 @@ def cases(tier, seed, shard, nshards):
     for i in range(n):
         m = i % 6
         if m < 3:
-            yield {"k": "rt", "texts": [rand_text(r) for _ in range(3)], "opts": ENC_OPTS[r.randrange(len(ENC_OPTS))], "inplace": r.random() < .5}
+            yield {"k": "rt", "texts": [rand_text(r, latexish=True) for _ in range(3)], "opts": ENC_OPTS[r.randrange(len(ENC_OPTS))], "inplace": r.random() < .5}
         elif m < 5:
             yield {"k": "scope", "texts": [rand_text(r) for _ in range(4)], "which": r.choice(["enc", "dec"]),
                    "opts": r.randrange(7), "inplace": r.random() < .5}
